@@ -27,6 +27,16 @@ let seq_op tok =
   | ["X"; v] -> ODestroy (n v)
   | _ -> failwith ("bad seq op " ^ tok)
 
+let conc_ev tok =
+  match split ',' tok with
+  | ["CS"; t] -> EvCopyStart (n t)
+  | ["A"; t; o] -> EvFetchAdd (n t, n o)
+  | ["S"; t; o] -> EvFetchSub (n t, n o)
+  | ["D"; t] -> EvDelete (n t)
+  | ["G"; t; u] -> EvGive (n t, n u)
+  | ["U"; t] -> EvUse (n t)
+  | _ -> EvDelete (nat_of_int 1000000)   (* an action the model does not have (e.g. a plain store): never enabled *)
+
 let show_var = function
   | VDead -> "-"
   | VNull -> "0"
@@ -53,6 +63,18 @@ let () =
         Buffer.add_string b ("F:" ^ show_obs fin);
         Buffer.add_string b (if !anybad then " P=MODEL-LEDGER-BAD" else " P=ok");
         print_endline (Buffer.contents b)
+      | "trace" :: caseno :: hs :: rest ->
+        let rec evs acc = function
+          | [] | ";" :: _ -> List.rev acc
+          | tok :: tl when String.length tok > 0 && tok.[0] = 'L' -> evs acc tl   (* plain load: no event of the model *)
+          | tok :: tl -> evs (conc_ev tok :: acc) tl in
+        let events = evs [] rest in
+        let hsl = List.map n (split ',' hs) in
+        (match validate hsl events with
+         | Inl i -> Printf.printf "trace %s REJECTED@%d\n" caseno (int_of_nat i)
+         | Inr (((rc, d), b), q) ->
+           Printf.printf "trace %s accepted events=%d rc=%d destroyed=%d bad=%d quiescent=%d\n" caseno (List.length events)
+             (int_of_nat rc) (int_of_nat d) (if b then 1 else 0) (if q then 1 else 0))
       | _ -> print_endline "?"
     done
   with End_of_file -> ());
